@@ -220,7 +220,7 @@ fn unequal_b2b(ctx: &mut Ctx) {
             let name = format!("{}/apply_keystream_b2b", d.flavor.name());
             ctx.subject(&name);
             let (li, lo) = pick_lens(ctx, ctx.rng.clone().range(1, b));
-            let (iv, _) = wl::ctr_iv(&mut ctx.rng, d.flavor, b);
+            let (iv, _) = stream_iv(ctx, d.flavor, b);
             let (data, _) = wl::data(&mut ctx.rng, li);
             let pre = ctx.rng.bytes(lo);
             let Ok(Ok(mut o)) = guard(|| (d.mk)(Ctor::New, &key, &iv)) else { return };
